@@ -330,19 +330,50 @@ def has_text_digit_hyphen_digit(las):
     return False
 
 
+def text_samples(las):
+    for c in las.curves:
+        d = np.asarray(c.data)
+        if d.dtype.kind in "USO":
+            for x in d.tolist():
+                if isinstance(x, str):
+                    yield x
+
+
 def classify_reread(las, text, exc):
     if has_text_with_blanks(las):
         return "reread-fails:text-curve-values-with-blanks-written-unquoted"
-    if has_text_digit_hyphen_digit(las) and re.search(r"(?im)^\s*WRAP\s*\.\s+YES", text):
+    wrapped = re.search(r"(?im)^\s*WRAP\s*\.\s+YES", text)
+    if has_text_digit_hyphen_digit(las) and wrapped:
         return "reread-fails:wrapped-text-samples-digit-hyphen-digit"
+    if any("'" in x or '"' in x for x in text_samples(las)):
+        # the same missing quoting: a quote character inside a sample opens a quoted token for the reader
+        return "reread-fails:text-curve-values-with-quote-characters-written-unquoted"
+    if wrapped and any(x[:1] in "#~" for x in text_samples(las)) and re.search(r"(?m)^\s*[#~]", text[text.upper().rfind("~A"):].split("\n", 1)[-1]):
+        # a wrapped row puts such a sample at the start of a physical line, where it is a comment or a section title
+        return "reread-fails:wrapped-text-sample-starts-a-line-with-comment-or-title-character"
+    if has_text_digit_hyphen_digit(las):
+        # same heuristic, unwrapped: the hyphens the reader saw on every input line (2.5E-3) are not in lasio's respelling (0.00250)
+        return "reread-fails:text-samples-digit-hyphen-digit-hyphens-on-other-lines-respelled"
     return "reread-raised:%s" % type(exc).__name__
 
 
-def lossy_index_fmt(opts):
-    """Is the index column written with fewer than the 5 decimals used for STRT/STOP/STEP?"""
+def lossy_index_fmt(opts, las=None):
+    """Is the index column written with fewer than the 5 decimals used for STRT/STOP/STEP - or with fewer than its samples carry?"""
     fmt = (opts.get("column_fmt") or {}).get(0, opts.get("fmt", "%.5f"))
     m = re.match(r"%\d*\.(\d+)f$", fmt)
-    return not (m and int(m.group(1)) >= 5)
+    if not (m and int(m.group(1)) >= 5):
+        return True
+    if las is not None and len(las.curves):
+        try:
+            idx = np.asarray(las.curves[0].data, dtype=float)
+            return any(float(fmt % x) != x for x in idx.tolist() if x == x)
+        except (TypeError, ValueError):
+            return False
+    return False
+
+
+def colon_in_well_field(las):
+    return any(":" in str(it.value) or ":" in str(it.descr) for it in list.__iter__(las.well))
 
 
 def blank_mnemonic_with_period(las):
@@ -365,7 +396,10 @@ def classify_drift(diffs, las, opts=None):
     first = diffs[0] if diffs else ""
     if leading_dot_unit(las) and any(re.search(r"unit|index_unit|original|mnemonic", d) for d in diffs):
         return "drift:leading-dot-unit-in-curves-migrates-to-mnemonic"
-    if opts is not None and lossy_index_fmt(opts) and all(re.match(r"/sections/Well/items\[[012]\]/value", d) for d in diffs):
+    if opts is not None and opts.get("version") == 1.2 and colon_in_well_field(las) and all(re.match(r"/sections/Well/items\[\d+\]/(value|descr)", d) for d in diffs):
+        # the colon family of C12, seen over cycles: the 1.2 layout puts a field with a colon before the separator
+        return "drift:well-field-with-colon-written-in-1.2-layout"
+    if opts is not None and lossy_index_fmt(opts, las) and all(re.match(r"/sections/Well/items\[[012]\]/value", d) for d in diffs):
         return "drift:start-stop-step-restated-after-lossy-data-format"
     m = re.match(r"/sections/([^/]+)/items\[\d+\]/(\w+)", first)
     if m:
